@@ -675,6 +675,7 @@ func TestMain(m *testing.M) {
 		debug.SetMaxStack(int(v))
 	}
 	code := m.Run()
+	theServer.stop()
 	st.dump()
 	os.Exit(code)
 }
